@@ -222,6 +222,39 @@ def run_async(snapfile, rng, quick, recs, meta):
                          "existing": existing, "want": want, "pack": pack, "sent": list(peer.seen), "after": after, "raised": raised})
             meta.append((os.path.basename(snapfile), getattr(dev, "key", "?"), cmd, arg))
             n += 1
+        # a scene: two keypad-driven devices are switched on back to back through the BLOCKING twins of the awaitable
+        # commands (what an automation does), the second before the first exchange has completed: each gets its own command
+        sws = [d for d in list(f.lights) + list(f.blowers) if d._keypad_button and not d.is_on]
+        if len(sws) >= 2:
+            s.quiesce()
+            peer.seen.clear()
+            a_, b_ = sws[0], sws[1]
+            raised_ = [""]
+
+            def scene():                 # (inside the loop: the blocking twins schedule their exchange as tasks)
+                try:
+                    a_.turn_on()
+                    b_.turn_on()
+                except Exception as e:  # noqa
+                    raised_[0] = type(e).__name__
+            s.loop.call_soon(scene)
+            s.advance(2.5)
+            raised = raised_[0]
+            s.quiesce()
+            for d_ in (a_, b_):
+                acc_ = d_._accessor
+                recs.append({"cmd": "turn_on", "stack": "async", "on_before": False, "keypad": d_._keypad_button,
+                             "item": {"pos": acc_.pos, "shape": packs.shape_of(acc_)}, "existing": 0, "want": 1, "pack": pack,
+                             "sent": [r_ for r_ in peer.seen if r_.get("key") == d_._keypad_button or r_.get("sub") != "key"],
+                             "after": 1 if d_.is_on else 0, "raised": raised})
+                meta.append((os.path.basename(snapfile), getattr(d_, "key", "?"), "turn_on (scene, blocking twin)", None))
+                n += 1
+            for d_ in (a_, b_):
+                try:
+                    s.run(d_.async_turn_off())
+                except Exception:  # noqa
+                    pass
+                s.advance(0.6)
         # a water-care change issued while the facade's own periodic poll (GETWC) is in flight: the command
         # queues behind the poll, whose late answer still carries the old mode
         from geckolib.config import GeckoConfig, set_config_mode
